@@ -62,12 +62,32 @@ class Prop(BaseProp):
                 "title_changes", "clears"]
 
     def n_cases(self, tier):
-        return 15000 if tier == "quick" else 250000
+        return (15000 if tier == "quick" else 250000) + 1      # last case: contracts under the repository's own tests
 
     def setup_worker(self):
         runner.cminx()
 
+    def contracts_case(self, res):
+        """Runtime contracts on the real functions while the repository's own tests run (vf/pytest_contracts.py)."""
+        from ..contracts_run import run_repo_tests
+        rc, out, data = run_repo_tests(['tests/unit_tests/test_rstwriter.py', 'tests/unit_tests/test_documenter.py', 'tests/test_samples'])
+        res.sig = "contracts-under-repo-tests"
+        res.nontrivial = True
+        if data is None:
+            res.skipped = "contract-run-produced-no-report"
+            return res
+        res.see("contract_backend", "icontract" if data.get("icontract") else "in-house wrapper")
+        for k, v in data["evaluations"].items():
+            res.count("contract_evaluations_under_repo_tests:" + k, v)
+        for v in data["violations"]:
+            if v["kind"] in ('serialisation-mutates-document', 'serialisation-not-repeatable', 'title-frame'):
+                res.violate("contract-under-repo-tests:" + v["kind"], v["detail"], {"tests": ['tests/unit_tests/test_rstwriter.py', 'tests/unit_tests/test_documenter.py', 'tests/test_samples']})
+        res.sample = {"contracts_under_repo_tests": data["evaluations"], "pytest_tail": out[-120:]}
+        return res
+
     def run_case(self, idx, rng):
+        if idx == self.n_cases(self.tier) - 1:
+            return self.contracts_case(CaseResult())
         from cminx.rstwriter import RSTWriter
         res = CaseResult()
         headers = rng.choice(HEADERS)
